@@ -418,7 +418,7 @@ impl G<'_> {
             }
             match self.p.below(100) {
                 0..=34 => {
-                    let ty = if self.frag { *self.p.pick(&[T::I, T::I, T::B, T::O, T::R, T::E]) } else { *self.p.pick(&LET_TYS) };
+                    let ty = if self.frag { *self.p.pick(&[T::I, T::I, T::B, T::O, T::R, T::E, T::S]) } else { *self.p.pick(&LET_TYS) };
                     let e = self.expr(ty, d);
                     let x = self.fresh(ty, true);
                     stmts.push(S::Let(x, e));
@@ -504,7 +504,7 @@ pub fn gen_program(p: &mut Prng, frag: bool) -> Generated {
     for i in 0..=nhelpers {
         let is_main = i == nhelpers;
         let (ptys, ret) = if is_main {
-            (vec![T::I, T::I, T::B], if frag { *g.p.pick(&[T::I, T::I, T::B, T::U, T::O, T::V]) } else { *g.p.pick(&[T::I, T::I, T::I, T::B, T::U, T::S, T::O, T::O, T::V, T::V]) })
+            (vec![T::I, T::I, T::B], if frag { *g.p.pick(&[T::I, T::I, T::B, T::U, T::O, T::V, T::S]) } else { *g.p.pick(&[T::I, T::I, T::I, T::B, T::U, T::S, T::O, T::O, T::V, T::V]) })
         } else {
             let n = g.p.below(3);
             ((0..n).map(|_| *g.p.pick(&[T::I, T::I, T::B])).collect(), *g.p.pick(&[T::I, T::I, T::B, T::U, T::O]))
